@@ -20,7 +20,7 @@ import c04_gen
 TOL64 = 1e-11
 TOL32 = 2e-5
 ADD_OPS = ('add', 'sub', 'iadd', 'isub', 'iadd_prefactor_other')
-SCALE_OPS = ('scale', 'rscale', 'div', 'iscale', 'iscale_prefactor')
+SCALE_OPS = ('scale', 'rscale', 'div', 'iscale', 'iscale_prefactor', 'idiv')
 
 
 # ------------------------------------------------------------------------------------------------
@@ -96,7 +96,7 @@ def obs_diff(a, b, path=''):
 # operations DOCUMENTED to return a (possibly) shallow copy: the result may share its block buffers with the operand, and the
 # effect of a later in-place operation on the other reference is documented as unspecified (Array.copy, sort_legcharge).
 # Only for such pairs a difference of the memory-sharing relation between the configurations is not a violation.
-SHALLOW_DOC = ('copy_shallow', 'sort_legcharge')
+SHALLOW_DOC = ('copy_shallow', 'sort_legcharge', 'unary')       # unary_blockwise: 'makes a **shallow** copy first'
 
 
 def doc_alias_classes(steps):
@@ -204,6 +204,12 @@ def classify(st, p, y, diffs):
         return 'C04:inner:scalar-dtype:integer-operands'
     if op == 'iadd_prefactor_other' and st['a'] == st['b'] and isinstance(st.get('s'), list):
         return 'C04:iadd_prefactor_other:self-aliased-operand:complex-prefactor'
+    if op == 'getitem' and 'error-class' in diffs and y.get('error') == 'IndexError' and 'with size 0' in y.get('msg', '') and 'error' not in p and \
+            any(l['bn'] == 0 for l in (p.get('res') or {}).get('legs', [])):
+        # an index that selects NOTHING on some axis (empty / negative-step slice, all-False mask) and needs a permutation: the
+        # projected leg has no blocks, Array.permute calls LegCharge.bunch() on it, and bunch() indexes charges with
+        # _find_row_differences(0 rows)[:-1] = [] (python) / [0] (compiled): the public face of the helper difference F63
+        return 'C04:_find_row_differences:zero-rows'
     if zero_size and 'crash' in diffs:
         return 'C04:zero-size-leg-block:interpreter-crash'
     if zero_size and 'error-class' in diffs and (('error' in p) != ('error' in y)):
@@ -324,6 +330,8 @@ def compare_programs(ctx, stream, cases, out):
             si, st, a, b, d = first
             nd += 1
             key = classify(st, a, b, d)
+            if os.environ.get('C04_DEBUG') and os.environ['C04_DEBUG'] in key:
+                print('DEBUG', stream, key, d, json.dumps(c['steps'][:si + 1])[-700:], json.dumps(a.get('pre')), '\nPY', json.dumps(a.get('recv') or a.get('res') or a.get('error'))[:300], '\nCY', json.dumps(b.get('recv') or b.get('res') or b.get('error'))[:300])
             ctx.fail('oracle', 'step %d (%s) differs between the configurations in %s; %s [%s]' % (si, st['op'], d[:6], blame(a, b), key),
                      {'stream': stream, 'case': {'mods': c['mods'], 'pool': c['pool'], 'steps': c['steps'][:si + 1]},
                       'step': si, 'py': a, 'cy': b, 'how': 'harness/impl/c04_impl.py kind=programs in both configurations'},
@@ -672,7 +680,11 @@ def main(ctx):
     # stream 3b: binary operations on operands of different block sparsity continued by in-place operations on results and operands
     chains = [c['case'] for c in common.corpus_cases('C04') if c.get('stream') == 'inplace-chains']
     chains += [gen_inplace_chain(rng) for _ in range(ctx.pick(250, 2000) * mult)]
-    items = ([('algos', c) for c in algos] + [('programs', c) for c in cases + f5 + zs + chains]
+    # stream 3c: tensors without stored blocks in every dtype-changing operation (python / numpy-typed prefactors, all dtypes)
+    bfree = [c04_gen.gen_blockfree_inplace(rng) for _ in range(ctx.pick(120, 1000) * mult)]
+    # stream 3d: public indexing (scalars are the only rank-0 results; the Array class has no rank 0)
+    index = [c04_gen.gen_indexing(rng) for _ in range(ctx.pick(100, 800) * mult)]
+    items = ([('algos', c) for c in algos] + [('programs', c) for c in cases + f5 + zs + chains + bfree + index]
              + [('kernels', c) for c in kcases])
     allout, infos = run_mixed(ctx, items, nchunks=ctx.pick(6, 12))
     mark('both-configurations')
@@ -692,6 +704,10 @@ def main(ctx):
     o += len(zs)
     ndiff += compare_programs(ctx, 'inplace-chains', chains, part(o, len(chains)))
     o += len(chains)
+    ndiff += compare_programs(ctx, 'blockfree-dtype', bfree, part(o, len(bfree)))
+    o += len(bfree)
+    ndiff += compare_programs(ctx, 'indexing', index, part(o, len(index)))
+    o += len(index)
     outk = part(o, len(kcases))
     # if something unexplained differs, intensify: as many programs again
     if ctx.violations and not ctx.thorough():
@@ -843,7 +859,12 @@ def main(ctx):
         'identical programs only); memory layout (contiguity) is not part of the differential observation',
         'C04: effects of in-place writes through shallow copies are excluded from the differential (documented as unspecified by Array.copy; '
         'they are the subject of C03); likewise the memory-sharing relation is diffed only for pairs of tensors that are NOT related by '
-        'a documented shallow copy (copy(deep=False), sort_legcharge)',
+        'a documented shallow copy (copy(deep=False), sort_legcharge, unary_blockwise)',
+        'C04: charges._sliced_copy is generated with ndim >= 1 only.  With ndim = 0 the helper differs (numpy copies the element, the '
+        'compiled code returns at `if ndim < 1`; Coq witness T04_sliced_copy_rank0_refuted), but that input is outside the quantifier: '
+        'its only callers (_combine_legs_worker, _split_legs_worker) pass blocks of an Array, the Array class rejects rank 0 '
+        '("can\'t have 0-rank Tensor"), and public indexing with an integer on every axis / squeeze of a one-element tensor return a '
+        'scalar without calling it (stream indexing runs exactly these calls in both configurations: no difference)',
     ]
     return ctx.finish(RULE, 'identical serialised programs and helper calls are run in a pure-Python and a freshly rebuilt compiled '
                       'interpreter and every observable (legs incl. pipe tables, labels, qtotal, dtype, block set, values, error class) '
@@ -885,5 +906,8 @@ RULE = ('programs: random programs of 4-8 steps over tensors of rank 1-4 with 0-
         'leg charges, missing and all-zero blocks, non-zero qtotal, dtypes float32/64 complex64/128 int64, small-integer entries; a '
         'program is non-trivial when at least one non-constructor step executed; distinct = distinct serialised program.  inplace-chains: '
         '2-4 operands with equal legs/labels/qtotal and independent block sparsity, sums/differences/axpy with prefactors 1,-1,2,1j, '
-        'then in-place scalings and additions on results and operands.  kernels: '
+        'then in-place scalings and additions on results and operands.  blockfree-dtype: a tensor without stored blocks (each of the 5 '
+        'dtypes) and 1-2 partners with equal legs as receivers/operands of *=, /=, iscale_prefactor, *, /, +, -, +=, -=, '
+        'iadd_prefactor_other with python and numpy-typed prefactors, (i)unary_blockwise, astype, negation, complex_conj, norm.  indexing: '
+        'a[...] with int/slice/mask/index array/Ellipsis per axis, a[i, j, ..] = v, take_slice, squeeze (scalar results included).  kernels: '
         'generated arguments of the helper functions (non-trivial always).  Each case is executed in BOTH configurations.')
